@@ -1,10 +1,12 @@
 package c01
 
 import (
+	"bytes"
 	"fmt"
 	"math/big"
 	"strconv"
 	"strings"
+	"sync"
 
 	"github.com/youchainhq/go-youchain/bls"
 	"github.com/youchainhq/go-youchain/common"
@@ -145,23 +147,41 @@ var (
 	}()
 )
 
+// aggregate: the forger's sum of signatures.  Decoding (a subgroup check in a pure-Go library) and the sums are
+// memoised: the same few signatures are summed in thousands of headers.
+var (
+	decSigCache sync.Map // raw -> bls.Signature (never mutated: Aggregate adds into a new point)
+	aggCache    sync.Map // concatenated raws -> aggregate bytes
+)
+
 func aggregate(sigs [][]byte) ([]byte, error) {
 	if len(sigs) == 0 {
 		return []byte{}, nil // what BlsVerifier.aggregateVotes returns for no votes
 	}
+	key := string(bytes.Join(sigs, nil))
+	if v, ok := aggCache.Load(key); ok {
+		return v.([]byte), nil
+	}
 	var ss []bls.Signature
 	for _, raw := range sigs {
+		if v, ok := decSigCache.Load(string(raw)); ok {
+			ss = append(ss, v.(bls.Signature))
+			continue
+		}
 		s, err := blsMgr.DecSignature(raw)
 		if err != nil {
 			return nil, err
 		}
+		decSigCache.Store(string(raw), s)
 		ss = append(ss, s)
 	}
 	a, err := blsMgr.Aggregate(ss)
 	if err != nil {
 		return nil, err
 	}
-	return a.Compress().Bytes(), nil
+	out := a.Compress().Bytes()
+	aggCache.Store(key, out)
+	return out, nil
 }
 
 // findRI returns the first round index in 1..64 at which pred holds for the member's proposer credential.
